@@ -519,8 +519,12 @@ integer_quotient(T x, Quantity<U, R> q) {
 // `CommonUnitT<U1, U2>` is also defined.  We convert to that common unit to perform the operation.
 template <typename U1, typename R1, typename U2, typename R2>
 constexpr auto operator%(Quantity<U1, R1> q1, Quantity<U2, R2> q2) {
+    // As with all other mixed-type operations, we do the computation in the common type: that is, we
+    // convert each input to the common rep *before* expressing it in the common unit.  (Otherwise,
+    // the scaled value of an input could overflow its own rep, even if it fits in the common rep.)
     using U = CommonUnitT<U1, U2>;
-    return make_quantity<U>(q1.in(U{}) % q2.in(U{}));
+    using R = std::common_type_t<R1, R2>;
+    return make_quantity<U>(q1.template as<R>(U1{}).in(U{}) % q2.template as<R>(U2{}).in(U{}));
 }
 
 // Callsite-readable way to convert a `Quantity` to a raw number.
@@ -834,8 +838,10 @@ constexpr auto operator>=(QLike q1, Quantity<U, R> q2) -> decltype(as_quantity(q
 #if defined(__cpp_impl_three_way_comparison) && __cpp_impl_three_way_comparison >= 201907L
 template <typename U1, typename R1, typename U2, typename R2>
 constexpr auto operator<=>(const Quantity<U1, R1> &lhs, const Quantity<U2, R2> &rhs) {
+    // Convert to the common rep first, so that this agrees with the other comparison operators.
     using U = CommonUnitT<U1, U2>;
-    return lhs.in(U{}) <=> rhs.in(U{});
+    using R = std::common_type_t<R1, R2>;
+    return rep_cast<R>(lhs).in(U{}) <=> rep_cast<R>(rhs).in(U{});
 }
 #endif
 
